@@ -8,6 +8,7 @@ A *spec descriptor* is plain JSON:
 
 kinds with exactly one element (single-output registry point):
     text      simple_file -> TextFileProvider            raw       simple_file(kind=RawFileProvider)
+    cmd_args  command_with_args (provider value = the element's "arg")
     cmd       simple_command (recorded context answers)  cmd_real  simple_command("/bin/cat <file>") really executed
     ds_list   @datasource -> DatasourceProvider(list)    ds_str    @datasource -> DatasourceProvider(str)
 kinds with 1..n elements (multi_output registry point), element order = order of "elems":
@@ -18,6 +19,9 @@ kinds with 1..n elements (multi_output registry point), element order = order of
     cfile     container_collect -> ContainerFileProvider ccmd      container_execute -> ContainerCommandProvider
     fail      implementation raises ("exc": "value"|"content"|"called") - a failed component
 
+Elements of m_cmd / m_cmd2 / ccmd / cmd_args may carry "arg": the value the argument provider yields for them
+(any JSON value, a list stands for a tuple; default: the element name), "placeholders": number of %s in the template.
+
 A line token is the literal line, except "@LONG" = a 70 000 character line.  Files and command
 outputs are rendered with every line terminated by "\\n".
 """
@@ -25,12 +29,13 @@ import contextlib
 import itertools
 import json
 import os
+import shlex
 import shutil
 
 LONG = ("abcdefghi" + "ü") * 7000          # 70 000 characters, 77 000 bytes; a 2-byte character straddles byte 32768
 TOKENS = ["", "a", " lead", "trail ", "tab\tx", "ü", "日本", "\U0001d11e", "\x0c", "\ufeffbom", "@LONG"]
 # "\ufeffbom": U+FEFF is neither a line break nor a surrogate; a reader using a BOM-stripping codec loses it on a first line
-SINGLE = ("text", "raw", "cmd", "cmd_real", "ds_list", "ds_str")
+SINGLE = ("text", "raw", "cmd", "cmd_real", "cmd_args", "ds_list", "ds_str")
 MODULE = "verif_c11"
 
 _SERIAL = itertools.count(1)
@@ -93,11 +98,89 @@ def env():
             return cls.__call__(self, broker)
         return type(cls.__name__, (cls,), {"__call__": __call__})
 
-    for n in ("simple_file", "simple_command", "foreach_execute", "foreach_collect", "glob_file",
+    for n in ("simple_file", "simple_command", "command_with_args", "foreach_execute", "foreach_collect", "glob_file",
               "container_collect", "container_execute"):
         setattr(e, n, counted(getattr(sf, n)))
     _ENV = e
     return e
+
+
+class OrderedPool(object):
+    """Deterministic stand-in for the executor handed to Hydration (serde.marshal calls `pool.map`).
+
+    Like concurrent.futures.Executor.map it takes all tasks at call time and hands the results back in INPUT order;
+    the tasks themselves are EXECUTED (and therefore complete) in the order `perm` says: perm[k] is the submission
+    index of the task that runs k-th. Every completion order a real pool can produce for n tasks is one such
+    permutation, so enumerating the permutations owns what is timing in a real ThreadPoolExecutor. Single-threaded:
+    it models completion order, not data races inside a serializer. submit() queues; the queue is run (in perm
+    order) when a result is first asked for."""
+
+    def __init__(self, perm):
+        self.perm = list(perm)
+        self.log = []            # (number of tasks, execution order) per map call
+        self._queue = []
+
+    def _order(self, n):
+        order = [i for i in self.perm if i < n]
+        return order + [i for i in range(n) if i not in order]
+
+    def map(self, fn, *iterables, **kw):
+        tasks = list(zip(*iterables))
+        out = [None] * len(tasks)
+        order = self._order(len(tasks))
+        self.log.append((len(tasks), order))
+        for i in order:
+            try:
+                out[i] = (True, fn(*tasks[i]))
+            except BaseException as ex:      # delivered when the consumer reaches it, as the real API does
+                out[i] = (False, ex)
+
+        def results():
+            for ok, val in out:
+                if not ok:
+                    raise val
+                yield val
+        return results()
+
+    def submit(self, fn, *a, **kw):
+        from concurrent.futures import Future
+        pool = self
+
+        class F(Future):
+            def result(self, timeout=None):
+                pool._flush()
+                return Future.result(self, timeout)
+
+            def exception(self, timeout=None):
+                pool._flush()
+                return Future.exception(self, timeout)
+
+            def done(self):
+                pool._flush()
+                return Future.done(self)
+        f = F()
+        self._queue.append((f, fn, a, kw))
+        return f
+
+    def _flush(self):
+        q, self._queue = self._queue, []
+        for i in self._order(len(q)):
+            f, fn, a, kw = q[i]
+            if f.set_running_or_notify_cancel():
+                try:
+                    f.set_result(fn(*a, **kw))
+                except BaseException as ex:
+                    f.set_exception(ex)
+
+    def shutdown(self, wait=True, **kw):
+        self._flush()
+
+    def __enter__(self):
+        return self
+
+    def __exit__(self, *a):
+        self.shutdown()
+        return False
 
 
 class Built(object):
@@ -112,6 +195,21 @@ class Built(object):
         self.docs = None
         self.host_broker = None
         self.loaded_broker = None
+
+
+def _arg_of(el, default):
+    if "arg" not in el:
+        return default
+    a = el["arg"]
+    return tuple(a) if isinstance(a, list) else a
+
+
+def _answer(b, command, lines):
+    """Registers the recorded output of `command` (keyed the way RecCtx sees it: shlex words joined by blanks)."""
+    key = " ".join(shlex.split(command))
+    if key in b.table:
+        raise ValueError("two elements produce the same command %r" % key)
+    b.table[key] = text_of(lines)
 
 
 def _save_as(mode, sid, n):
@@ -146,9 +244,9 @@ def build(specs, top, pool=None):
             fh.write(text_of(lines).encode("utf-8"))
         return p
 
-    def source(values):
+    def source(values, scalar=False):
         def src(broker):
-            return list(values)
+            return values if scalar else list(values)
         src.__name__ = "src"
         src.__module__ = MODULE
         datasource(HostContext)(src)
@@ -193,11 +291,23 @@ def build(specs, top, pool=None):
                 content=[expand(l) for l in el["lines"]], relative_path="ds/%s/%s" % (sid, el["n"]),
                 save_as=_save_as(mode, sid, el["n"])) for el in elems])
         elif kind in ("m_cmd", "m_cmd2"):
+            # an element may carry an explicit "arg" (JSON value; a list stands for a tuple); "placeholders" is the
+            # number of %s in the command template (0 only makes sense with the empty tuple as argument)
+            nph = spec.get("placeholders", 2 if kind == "m_cmd2" else 1)
+            template = "/bin/echo %s" % sid + " %s" * nph
+            vals = []
             for el in elems:
-                key = "/bin/echo %s %s" % (sid, el["n"]) + (" x" if kind == "m_cmd2" else "")
-                b.table[key] = text_of(el["lines"])
-            src = source([(n, "x") for n in names] if kind == "m_cmd2" else names)
-            impl = e.foreach_execute(src, "/bin/echo %s %%s" % sid + (" %s" if kind == "m_cmd2" else ""), context=HostContext)
+                a = _arg_of(el, (el["n"], "x") if kind == "m_cmd2" else el["n"])
+                vals.append(a)
+                _answer(b, template % a, el["lines"])
+            src = source(vals)
+            impl = e.foreach_execute(src, template, context=HostContext)
+        elif kind == "cmd_args":
+            a = _arg_of(elems[0], names[0])
+            template = "/bin/echo %s" % sid + " %s" * spec.get("placeholders", 1)
+            _answer(b, template % a, elems[0]["lines"])
+            src = source(a, scalar=True)
+            impl = e.command_with_args(template, src, save_as=_save_as(mode, sid, names[0]), context=HostContext)
         elif kind in ("m_text", "m_raw"):
             for el in elems:
                 write_file("/src/%s/%s" % (sid, el["n"]), el["lines"])
@@ -216,9 +326,13 @@ def build(specs, top, pool=None):
             src = source([("img", "env", "cid%s%s" % (sid, n), "/cpath/%s/%s" % (sid, n)) for n in names])
             impl = e.container_collect(src, context=HostContext)
         elif kind == "ccmd":
+            vals = []
             for el in elems:
-                b.table["/usr/bin/env exec cid%s%s /bin/echo %s %s" % (sid, el["n"], sid, el["n"])] = text_of(el["lines"])
-            src = source([("img", "env", "cid%s%s" % (sid, n), n) for n in names])
+                a = _arg_of(el, el["n"])
+                cid = "cid%s%s" % (sid, el["n"])
+                _answer(b, "/usr/bin/env exec %s %s" % (cid, ("/bin/echo %s %%s" % sid) % (a,)), el["lines"])
+                vals.append(("img", "env", cid, a))
+            src = source(vals)
             impl = e.container_execute(src, "/bin/echo %s %%s" % sid, context=HostContext)
         elif kind == "fail":
             def boom(broker, exc=spec.get("exc", "value"), sid=sid):
